@@ -113,8 +113,9 @@ static void vegas_case(report& r, std::string const& id, sz iters, int gridkind,
     if (mode == 0) { chk = hep::vegas(integrand, calls, chk, vf::never_stop()); log = LOG<T>(); }
     else if (mode < 100)
     {
-        std::vector<sz> a(calls.begin(), calls.begin() + mode), b(calls.begin() + mode, calls.end());
-        chk = hep::vegas(integrand, a, chk, vf::never_stop());
+        sz const split = mode == 50 ? 0 : sz(mode);
+        std::vector<sz> a(calls.begin(), calls.begin() + split), b(calls.begin() + split, calls.end());
+        if (split) chk = hep::vegas(integrand, a, chk, vf::never_stop());
         std::ostringstream out; chk.serialize(out);
         std::istringstream in(out.str());
         auto loaded = hep::make_vegas_chkpt<T, E>(in);
@@ -195,7 +196,7 @@ static void mc_case(report& r, std::string const& id, sz iters, int wkind, T bet
     using E = vf::script_engine;
     vf::script_engine::table().clear();
     vf::script_engine::salt() = 1901;
-    std::vector<T> const user = wkind == 1 ? std::vector<T>{T(2), T(5), T(3)} : std::vector<T>{T(0), T(1), T(3)};
+    std::vector<T> const user = wkind == 1 ? std::vector<T>{T(2), T(5), T(3)} : std::vector<T>{T(0), T(1), T(2)};
     auto fresh = [&]() {
         return wkind == 0 ? hep::make_multi_channel_chkpt<T, E>(minw, beta, E()) : hep::make_multi_channel_chkpt<T, E>(user, minw, beta, E());
     };
@@ -208,8 +209,9 @@ static void mc_case(report& r, std::string const& id, sz iters, int wkind, T bet
     if (mode == 0) { chk = hep::multi_channel(integrand, calls, chk, vf::never_stop()); log = LOG<T>(); }
     else if (mode < 100)
     {
-        std::vector<sz> a(calls.begin(), calls.begin() + mode), b(calls.begin() + mode, calls.end());
-        chk = hep::multi_channel(integrand, a, chk, vf::never_stop());
+        sz const split = mode == 50 ? 0 : sz(mode);
+        std::vector<sz> a(calls.begin(), calls.begin() + split), b(calls.begin() + split, calls.end());
+        if (split) chk = hep::multi_channel(integrand, a, chk, vf::never_stop());
         std::ostringstream out; chk.serialize(out);
         std::istringstream in(out.str());
         auto loaded = hep::make_multi_channel_chkpt<T, E>(in);
@@ -254,7 +256,7 @@ static void mc_case(report& r, std::string const& id, sz iters, int wkind, T bet
         }
         if (minw == T())
             for (sz i = 0; i != 3; ++i)
-                if (std::fabs(static_cast<long double>(res[0].channel_weights()[i]) - user[i] / su) > 8 * std::numeric_limits<T>::epsilon())
+                if (!(std::fabs(static_cast<long double>(res[0].channel_weights()[i]) - user[i] / su) <= 8 * std::numeric_limits<T>::epsilon()))
                 { r.violate("first-iteration-state", id, id + ": first weights " + vf::join_dec(res[0].channel_weights()) + " are not the normalised user weights"); return; }
     }
     if (!vf::same_bits(chk.beta(), beta) || !vf::same_bits(chk.min_weight(), minw)) { r.violate("parameter-lost", id, id + ": beta / min_weight"); return; }
@@ -309,7 +311,7 @@ static void for_type(report& r)
     if (!r.want_prefix(tn)) return;
     for (sz iters = 1; iters <= 4; ++iters)
     {
-        std::vector<int> modes = {0};
+        std::vector<int> modes = {0, 50};      // 50: written to text and read back before the first iteration
         for (sz s = 1; s < iters; ++s) modes.push_back(int(s));
         for (int p = 1; p <= 3; ++p) modes.push_back(100 + p);
         for (int mode : modes)
@@ -317,6 +319,7 @@ static void for_type(report& r)
             for (int gk = 0; gk <= 4; ++gk)
             for (T alpha : {T(0), T(0.5), T(1.5)})
             {
+                if (mode == 50 && gk != 4) continue;    // a default checkpoint whose dimension is not set yet cannot be written
                 std::string const id = tn + " vegas iters=" + std::to_string(iters) + " mode=" + std::to_string(mode) + " grid=" + std::to_string(gk) + " alpha=" + vf::dec(alpha);
                 if (!r.want(id)) continue;
                 vegas_case<T>(r, id, iters, gk, alpha, mode);
